@@ -48,15 +48,13 @@ Print Assumptions C16_scopes_map_order_irrelevant.
    every member of the result is an unparsable input scope or THE rebuilt scope
    of one (type, name) *)
 Theorem C16_scopes_wildcard :
-  forall l, (2 <= length l)%nat ->
+  forall l,
     (forall s t n a, In s l -> classify s = Keyed t n a -> In [c_star] a ->
        In (t ++ [c_colon] ++ n ++ [c_colon] ++ [c_star]) (clean_scopes l)) /\
     (forall y, In y (clean_scopes l) <->
        (In y l /\ classify y = Pass y) \/
        exists k, In k (keys_of (map classify l) []) /\ rebuild (map classify l) k = [y]).
-Proof.
-  exact (fun l H => conj (fun s t n a => star_absorbs l s t n a H) (fun y => clean_scopes_members l y H)).
-Qed.
+Proof. exact (fun l => conj (star_absorbs_all l) (clean_scopes_members_all l)). Qed.
 Print Assumptions C16_scopes_wildcard.
 
 Example C16_scopes_example :
@@ -256,7 +254,9 @@ Print Assumptions C16_single_context_cache.
    the function completes at most once; every caller that receives a result
    receives that one; a second caller enters the function only after the first
    one was cancelled (one fetch in flight); nobody receives a result before one
-   is published; a cancelled fetcher puts the token back *)
+   is published.  (That a cancelled fetcher puts the value back into the channel is the
+   definition of the step OCancelF in Model/Once.v, tied to once.go by the accepted
+   traces with hand-over; it is not a theorem.) *)
 Theorem C16_once :
   (forall tr s, orun OTok tr = Some s ->
      (done_count tr <= 1)%nat /\
@@ -266,10 +266,9 @@ Theorem C16_once :
   (forall p g1 m g2 q s,
      orun OTok (p ++ OAcquire g1 :: m ++ OAcquire g2 :: q) = Some s -> In (OCancelF g1) m) /\
   (forall tr s, orun OTok tr = Some s -> (forall v, s <> OClosed v) ->
-     forall g w, ~ In (OReadClosed g w) tr) /\
-  (forall g, ostep (OHeld g) (OCancelF g) = Some OTok).
+     forall g w, ~ In (OReadClosed g w) tr).
 Proof.
-  exact (conj once_shared_result (conj one_in_flight (conj no_result_before_publication cancel_hands_over))).
+  exact (conj once_shared_result (conj one_in_flight no_result_before_publication)).
 Qed.
 Print Assumptions C16_once.
 
